@@ -53,8 +53,52 @@ func subSeed(seed int64, i int) int64 {
 // Value returns the i-th value for a seed (deterministic across processes) and its root index.
 func Value(seed int64, i int) (int, reflect.Value) {
 	r := rand.New(rand.NewSource(subSeed(seed, i)))
-	root := i % len(Roots)
+	if i%3 == 2 {
+		// a random composite type over the base types (struct keys, deep nesting of containers)
+		t := RandType(r, 1+r.Intn(4))
+		return -1, Fill(r, t, 4)
+	}
+	root := (i - i/3) % len(Roots)
 	return root, Fill(r, Roots[root].Type, 4)
+}
+
+var baseTypes = []reflect.Type{
+	t[int](), t[string](), t[bool](), t[float64](), t[uint8](), t[rune](), t[uintptr](), t[float32](), t[int64](),
+	t[vt.MyInt](), t[vt.MyStr](), t[vt.MyF64](), t[vu.MyID](), t[time.Duration](),
+	t[vt.Leaf](), t[vt.Empty](), t[vu.Pt](), t[vu.Item](), t[vt.Deep2](), t[vt.Ptrs](), t[struct{}](),
+}
+
+var keyTypes = []reflect.Type{
+	t[string](), t[int](), t[bool](), t[float64](), t[rune](), t[uint8](), t[vt.MyStr](), t[vu.MyID](), t[[2]int](),
+	t[vu.Pt](), t[vt.Leaf](), t[vt.Empty](), t[struct{}](), t[[1]vu.Pt](),
+}
+
+// RandType builds a composite type with reflect.*Of (single-level pointers only).
+func RandType(r *rand.Rand, depth int) reflect.Type {
+	if depth <= 0 {
+		return baseTypes[r.Intn(len(baseTypes))]
+	}
+	switch r.Intn(5) {
+	case 0:
+		return reflect.SliceOf(RandType(r, depth-1))
+	case 1:
+		return reflect.ArrayOf(r.Intn(3), RandType(r, depth-1))
+	case 2, 3:
+		return reflect.MapOf(keyTypes[r.Intn(len(keyTypes))], RandType(r, depth-1))
+	}
+	e := RandType(r, depth-1)
+	if e.Kind() == reflect.Ptr {
+		return e
+	}
+	return reflect.PointerTo(e)
+}
+
+// RootName names the root of value i.
+func RootName(root int, v reflect.Value) string {
+	if root >= 0 {
+		return Roots[root].Name
+	}
+	return "random:" + v.Type().String()
 }
 
 var stringsPool = []string{"", "a", "hello", "quote\"s", "new\nline", "back`tick", "\xff\xfe", "世界", "tab\t", "\\", "nul\x00", "'", "%v@x'", "é", " lead", " ", "a\xc3"}
